@@ -53,6 +53,10 @@ HEAD = r'''
    at its first use and any mismatch with ptr+offset fails the postcondition (pointer identity: writes land in the parent). */
 #define XV_SPAN_MAX 65536ul   /* bound on the PARENT size only; offsets, counts and indices range over all of size_t */
 #define DYN ((unsigned long)-1)
+/* (defined here as well, so that code that no longer throws at all fails its postconditions instead of failing to compile) */
+#ifndef XV_EXC_tcb_contract_violation_error
+#define XV_EXC_tcb_contract_violation_error 199
+#endif
 #define VIOL XV_EXC_tcb_contract_violation_error
 #define P(s) ((s)->storage_.ptr)
 #define SZ_dyn(s) ((s)->storage_.size)
@@ -66,7 +70,7 @@ HEAD = r'''
 
 
 def gen_contracts(mode):
-    checked = mode == 'thr'
+    checked = mode in ('thr', 'thrn')
 
     def gen(unit, lw, roots):
         out = [HEAD]
@@ -150,7 +154,8 @@ def gen_contracts(mode):
 
 def build(tier, workdir, seed):
     units, jobs = [], []
-    for mode, defs in (('nc', ['TCB_SPAN_NO_CONTRACT_CHECKING']), ('thr', ['TCB_SPAN_THROW_ON_CONTRACT_VIOLATION'])):
+    # thrn: throwing checks requested explicitly in a release build (NDEBUG only selects the DEFAULT mode; an explicit request must still check)
+    for mode, defs in (('nc', ['TCB_SPAN_NO_CONTRACT_CHECKING']), ('thr', ['TCB_SPAN_THROW_ON_CONTRACT_VIOLATION']), ('thrn', ['TCB_SPAN_THROW_ON_CONTRACT_VIOLATION', 'NDEBUG'])):
         u = Unit('span_' + mode, INST, select, gen_contracts(mode), rec_alias(), defines=defs).lower(workdir)
         units.append(u)
         jobs += u.contract_jobs(PROP, timeout=300)
@@ -158,8 +163,8 @@ def build(tier, workdir, seed):
                 'clang 14 template instantiation; xtl2c lowering rules (DESIGN.md 3.2)'],
             'assumptions': ['parent size bounded by 65536 elements (object-size limit of the verifier); offsets, counts, indices unbounded',
                             'configurations: span<int> and span<int,4>; static sub-views first<2>, last<2>, subspan<1,2>, subspan<1>; '
-                            'modes TCB_SPAN_NO_CONTRACT_CHECKING and TCB_SPAN_THROW_ON_CONTRACT_VIOLATION'],
-            'coverage_extra': {'modes': ['no-checking', 'throwing']}}
+                            'modes TCB_SPAN_NO_CONTRACT_CHECKING, TCB_SPAN_THROW_ON_CONTRACT_VIOLATION, and TCB_SPAN_THROW_ON_CONTRACT_VIOLATION together with NDEBUG'],
+            'coverage_extra': {'modes': ['no-checking', 'throwing', 'throwing + NDEBUG']}}
 
 
 # ---------- replay of a verifier counterexample on the real header ----------
@@ -196,7 +201,7 @@ def replay(ctx, job, ob, steps, base):
     if not m or m.group(2) not in OPS:
         return None
     kind, op = m.groups()
-    mode = 'TCB_SPAN_THROW_ON_CONTRACT_VIOLATION' if job.unit.endswith('thr') else 'TCB_SPAN_NO_CONTRACT_CHECKING'
+    mode = 'TCB_SPAN_THROW_ON_CONTRACT_VIOLATION' if job.unit.endswith('thr') else 'TCB_SPAN_THROW_ON_CONTRACT_VIOLATION\n#define NDEBUG 1' if job.unit.endswith('thrn') else 'TCB_SPAN_NO_CONTRACT_CHECKING'
     n = 4 if kind == 'span4' else tv.field(tv.obj_of('self'), 'storage_.size')
     if n is None:
         return None
